@@ -1125,3 +1125,61 @@ def greedy_groups_before_literal(pattern: str, flags: int):
             if str(o2) == "MAX_REPEAT" and a2[1] > 1 and any(can_match(o3, a3, ord(sep[0])) for o3, a3 in a2[2]):
                 out.append((av[0], sep, o2))
     return out
+
+
+
+# ---------------------------------------------------------------------------------------------------------------------
+# names are compared case-insensitively on BOTH sides
+_MIXED_EXAMPLE = """
+def bad(self, bp):
+    own = {b.name.lower() for b in self.boundprocs}
+    return bp.name not in own
+def bad2(self, bp, other):
+    return bp.name == other.name.lower()
+def good(self, bp):
+    own = {b.name.lower() for b in self.boundprocs}
+    return bp.name.lower() not in own
+def good2(self, bp, other):
+    return bp.name == other.name
+"""
+
+
+def _mixed_case_comparisons(fn: ast.AST):
+    from .. import astq
+    out = []
+    for c in ast.walk(fn):
+        if not (isinstance(c, ast.Compare) and len(c.ops) == 1 and isinstance(c.ops[0], (ast.In, ast.NotIn, ast.Eq, ast.NotEq))):
+            continue
+        l, r = c.left, c.comparators[0]
+        for a, b in ((l, r), (r, l)):
+            if isinstance(a, ast.Attribute) and a.attr == "name" and not isinstance(b, ast.Constant):
+                srcs = [b] + astq.expand_locals(b, fn)
+                if any(".lower()" in ast.unparse(x) or ".casefold()" in ast.unparse(x) for x in srcs):
+                    out.append((c, a, b))
+                    break
+    return out
+
+
+def mixed_case_name_comparisons(ctx, rep, modules: Sequence[str] = ("sourceform", "fortran_project", "external_project"), label: str = ""):
+    """Fortran names are case-insensitive and FORD keeps them as written, so two names are compared after lower-casing BOTH.  A
+    comparison (==, in) between a name as written (`x.name`) and something that was lower-cased (a set of `.lower()`ed names, a
+    lower-cased key) only works while the source happens to be written in lower case."""
+    py = ctx.py
+    ex = ast.parse(_MIXED_EXAMPLE)
+    got = {f.name: len(_mixed_case_comparisons(f)) for f in ex.body if isinstance(f, ast.FunctionDef)}
+    if got != {"bad": 1, "bad2": 1, "good": 0, "good2": 0}:
+        raise AnalysisError(f"mixed-case comparison matcher fails on its own example: {got}")
+    n = k = 0
+    for mod, fn in py.all_functions():
+        if mod not in modules:
+            continue
+        n += 1
+        for c, a, b in _mixed_case_comparisons(fn):
+            if py.enclosing_function(c) is not fn:
+                continue
+            k += 1
+            rep.ob(f"{py.qualname(fn)}: `{ast.unparse(c)[:60]}`", False,
+                   f"`{ast.unparse(a)}` is the name as written in the source, `{ast.unparse(b)[:40]}` is lower-cased: `Area` and `area` "
+                   f"do not compare equal, so an entity written with capitals is not recognised as the same one", py.nloc(c))
+    rep.ob(f"{label}names are lower-cased on both sides of a comparison", k == 0, f"{n} functions inspected", "ford/sourceform.py")
+    return n
